@@ -301,16 +301,24 @@ def scan(f, fmt, base, leaf, where):
     out = []
     f.setupSlice(base)
     limit = len(f.getPayloads()) + len(f.coords) + 4
+    handles = []
     while True:
         h = f.nextInSlice()
         if h is None:
             break
+        handles.append(h)
         c = f.handleToCoord(h)
         p = f.handleToPayload(h)
         v = f.payloadToValue(p) if leaf else None
         out.append((c, p, v))
         if len(out) > limit:
             raise Violation("scan", f"{where}: nextInSlice does not terminate ({len(out)} handles from base {base})")
+    # a handle stays good after the scan has moved on: converting the collected handles afterwards gives the same
+    # elements as converting each one at once
+    later = [(f.handleToCoord(h), f.handleToPayload(h)) for h in handles]
+    if later != [(c, p) for c, p, _ in out]:
+        raise Violation("scan", f"{where}: the handles of a scan from {base}, converted after the scan, give {later}; "
+                        f"converted one by one they gave {[(c, p) for c, p, _ in out]}")
     return out
 
 
@@ -456,7 +464,8 @@ def _check_fiber(f, rec, child_objs, dims, desc, where, bases, recorder):
                                     f"{g[0]} does not select child fiber #{i} of this fiber")
     # -- coordinate lookup
     if fmt == "C":
-        for q in range(-1, n + 1):
+        # (in ascending order, then in descending order: a lookup must not depend on the one before)
+        for q in list(range(-1, n + 1)) + list(range(n, -2, -1)):
             want = next((i for i, c in enumerate(coords) if c >= q), None)
             got = f.coordToHandle(q)
             if not (got is None and want is None) and not same(got, want):
@@ -587,6 +596,13 @@ def check_one(rank_ids, nest, natural, cont, desc, imposed, recorder, touch=(), 
                             f"{len(dec.fibers[r])} fibers")
     if ot[0][0].getPayloads() != [ot[1][0]] or ot[0][0].getPayloads()[0] is not ot[1][0]:
         raise Violation("fibers", f"{tag}: root handle does not hold the rank-0 fiber")
+    # ... and scanned like any encoded fiber it yields one element, at coordinate 0, that leads to the rank-0 fiber
+    root = ot[0][0]
+    root.cache = StubCache()
+    rs = scan(root, "U", 0, False, f"{tag}: root handle")
+    if len(rs) != 1 or rs[0][0] != 0 or type(rs[0][1]) is not int or root.getPayloads()[rs[0][1]] is not ot[1][0]:
+        raise Violation("scan", f"{tag}: scanning the root handle yields {[(c, p) for c, p, _ in rs]}, expected one "
+                        f"element at coordinate 0 selecting the rank-0 fiber")
     # the root handle is the encoded object that owns payloads_root: its size is what that array stores
     ot[0][0].cache = StubCache()
     rsize = ot[0][0].getSize()
